@@ -19,7 +19,7 @@ PROPS = {
     },
 }
 
-HOOK_COMMITS = ["c5f0c72"]
+HOOK_COMMITS = ["c5f0c72", "e06bdd6"]
 
 PURE = "pure function of its input: no schedule, clock, fault, I/O or interleaving for a simulator to own (DESIGN.md section 8); no other technique is substituted"
 NOT_APPLICABLE = [
@@ -138,4 +138,14 @@ PROPS["C13"] = {
     "real": REAL_SYSTEM, "stub": STUB_SYSTEM, "assumptions": ADV_ASSUME,
     "level_text": "Seeded exploration of hostile inputs at every reachable protocol state with a liveness epilogue; panics are observed on the captured net/http error log, wedges as a peer that never gets its answer.",
     "level_note": "Sampling; the body generator is a fixed family of malformed shapes plus random bytes.",
+}
+
+PROPS["C08"] = {
+    "test": "TestC08", "level": "exploration", "budget": {"quick": 30, "thorough": 900},
+    "rule": "the real transport with one accessory (bool, int, float and string characteristics, all with events); controller X verifies and subscribes to all of them, then 1..4 application goroutines set 1..4 unique values each (string values optionally of several frames), a second verified controller Y writes by PUT, X's own GET requests are answered, and hap.KeepAlive (started by the harness as a user would) fires when the scheduler advances the simulated clock by 10 minutes; every hap.Connection.Write entry, every write-mutex acquisition and every socket write entry is a park, so the scheduler decides in which order sealed frames reach the socket. Oracle: everything the accessory put on X's socket, in socket order, authenticates frame by frame with counters 0,1,2,... under the reference framing, and the decrypted stream is a concatenation of the payloads recorded at Connection.Write (each intact and contiguous). non-trivial = at least two writers were parked on X's connection (at the socket or at the write mutex) at the same quiescent point; distinct = distinct (scenario shape, event-log hash)",
+    "real": REAL_SYSTEM + ["hap.KeepAlive (real), driven by the fake clock"], "stub": STUB_SYSTEM,
+    "assumptions": ["token passing orders all goroutines, so unsynchronised memory access inside Encrypt is not visible to this check (no park inside Encrypt)",
+                    "interleavings at park-point granularity"],
+    "level_text": "Seeded exploration of writer interleavings on one encrypted connection: the scheduler owns the order of frame sealing and socket writes. A reach probe counts runs with two writers parked on the same connection.",
+    "level_note": "Sampling of schedules; the race detector is blind under the token scheduler and is not used to decide the property.",
 }
